@@ -65,7 +65,10 @@ func (x *Executor) Become(stdin *os.File, environ []string, command string) {
 	}
 	args := append([]string{shellPath}, append(x.args, command)...)
 	SetStdin(stdin)
-	syscall.Exec(shellPath, args, environ)
+	// Exec returns only when it has failed (e.g. the command is too long)
+	if err := syscall.Exec(shellPath, args, environ); err != nil {
+		fmt.Fprintf(os.Stderr, "fzf (become): %s\n", err.Error())
+	}
 }
 
 // KillCommand kills the process for the given command
